@@ -26,6 +26,12 @@ from ..core import short_loc, op_place
 BS = 'serde_avro_derive::BuildSchema'
 
 
+# Rust type whose node each logical type annotates in generated code (Avro: date, time-millis over int; time-micros,
+# timestamp-* over long; uuid over string)
+LOGICAL_PRIMITIVE = {'Date': ('i32',), 'TimeMillis': ('i32',), 'TimeMicros': ('i64',), 'TimestampMillis': ('i64',),
+                     'TimestampMicros': ('i64',), 'Uuid': ('alloc::string::String',)}
+
+
 def _ops_of_rv(rv):
     k = rv['k']
     if k == 'use' or k == 'cast' or k == 'repeat':
@@ -299,6 +305,14 @@ def run(ctx):
                 co = origin(b, t['args'][2])
                 cl = [a[1] for a in co.atoms if a[0] == 'closure']
                 ok = len(cl) == 1 and cl[0] in f.bodies
+                # GEN-LOGICAL: the node a logical type annotates is the primitive the specification gives it (the
+                # serializer writes an `int` node on 32 bits: a time-micros over int loses every value above i32::MAX)
+                lts = sorted({a[2] for a in origin(b, t['args'][1]).atoms if a[0] == 'agg' and a[1].endswith('LogicalType')})
+                if ok and len(lts) == 1 and lts[0] in LOGICAL_PRIMITIVE:
+                    dups = [ct.get('substs', [''])[0] for cbb, ct in f.bodies[cl[0]].calls() if _ends(ct, 'SchemaBuilder::build_duplicate')]
+                    ctx.ob('GEN-LOGICAL', '%s/%s#%d' % (T, lts[0], len([1 for xb, xt in calls if _ends(xt, 'SchemaBuilder::build_logical_type') and b.dominates(xb, bb)])),
+                           len(dups) == 1 and dups[0] in LOGICAL_PRIMITIVE[lts[0]], loc,
+                           'logical type %s annotates a node built for %s (specification: %s)' % (lts[0], dups, ' or '.join(LOGICAL_PRIMITIVE[lts[0]])))
                 if ok:
                     cb = f.bodies[cl[0]]
                     names = {strip_generics(cname(ct)) for cbb, ct in cb.calls()}
